@@ -36,6 +36,7 @@ def run(prog: Program, rep, tier: str) -> None:
     rep.explanation = EXPLANATION
     rep.assumptions += ["params.lamb_inc > 1 (default 2.0; not validated by Params)"]
     x = ExcFlow(prog)
+    c07.containment(prog, rep, x)      # the failure path is only taken if the failure arrives there
     c07.failure_result(prog, rep, x)
     n = 0
     n_ctrl = 0
